@@ -666,6 +666,28 @@ def _r5(ctx, repo, A, pm):
                             ctx.ok("C19.R5", key, nontrivial=True,
                                    sample="every appended name is assigned in the iteration")
     ctx.require(nloops >= 2, f"only {nloops} per-sensor reading loops found")
+    # ... and the same for the per-CPU loops of cpu_freq() on every platform
+    from ..core.pyrepo import PLATFORM_MODULES
+    for mn_ in sorted(set(PLATFORM_MODULES.values())):
+        for cf_ in repo.funcs(mn_, "cpu_freq"):
+            ccfg_ = A.cfg(cf_)
+            for lp in [x for x in ast.walk(cf_.node) if isinstance(x, ast.For)]:
+                for y_ in [z for b_ in lp.body for z in ast.walk(b_)
+                           if isinstance(z, ast.Expr) and isinstance(z.value, ast.Call)
+                           and isinstance(z.value.func, ast.Attribute)
+                           and z.value.func.attr == "append"]:
+                    stale = stale_in_loop(ccfg_, lp, y_, cf_.node)
+                    conds_ = "|".join(norm_stmt(t_) for t_, _ in cf_.conds) or "-"
+                    key = f"per-cpu-state:{mn_}:{conds_}"
+                    if stale:
+                        ctx.fail("C19.R5", key, cf_.file, y_.lineno, cf_.qual,
+                                 f"{mn_}.cpu_freq(): the entry appended for a CPU can use {stale} "
+                                 f"without assigning them in that iteration: unbound for the "
+                                 f"first CPU (UnboundLocalError), the previous CPU's limits "
+                                 f"afterwards")
+                    else:
+                        ctx.ok("C19.R5", key, nontrivial=True,
+                               sample="every appended name is assigned in the iteration")
     # entry i of cpu_freq(percpu=True) describes CPU i: the cpufreq directories are
     # ordered by CPU NUMBER (policy10 sorts before policy2 as text)
     for cf in repo.funcs(pm, "cpu_freq"):
